@@ -55,3 +55,60 @@ Definition silenced (c : ctx) (d : diag) (code : str) : Prop :=
   (exists s anc e a, d_scope d = Some s /\ encloses (c_ents c) anc s /\ nth_error (c_ents c) anc = Some e /\ In a (ent_allows e) /\ names code a).
 (* parents come before their children, so the parent chain is finite *)
 Definition wf_ents (es : list ent) : Prop := forall id e p, nth_error es id = Some e -> ent_parent e = Some p -> p < id.
+
+(* ---------- which element a lint concerns ---------- *)
+(* A lint carries the scoped identifier of an entity and a location.  The entity named is not always the one closest to the
+   lint: a parameter and a return member of one operation can share a scoped identifier (one of them answers to it), and a type
+   nested in a sequence, dictionary or result is reported in the scope of the container of its member.  into_updated goes from
+   the entity named to the innermost member that contains the location (innermost_entity_at, fix in diagnostics/diagnostic.rs). *)
+Definition lpos : Type := nat * nat.                         (* row, column *)
+Record lspan := { ls_lo : lpos; ls_hi : lpos }.
+(* where an entity is written (file, extent); parameters and return members are marked; for a type alias, the extent of its underlying type *)
+Record lplace := { lp_span : lspan; lp_param : bool; lp_file : nat; lp_under : option lspan }.
+Definition pos_leb (a b : lpos) : bool := (fst a <? fst b)%nat || ((fst a =? fst b)%nat && (snd a <=? snd b)%nat).
+Definition within (inner outer : lspan) : bool := pos_leb (ls_lo outer) (ls_lo inner) && pos_leb (ls_hi inner) (ls_hi outer).
+Definition parent_of (es : list ent) (j : nat) : option nat := match nth_error es j with Some e => ent_parent e | None => None end.
+Definition span_of_ent (ps : list lplace) (j : nat) : option lspan := option_map lp_span (nth_error ps j).
+Definition is_child_at (es : list ent) (ps : list lplace) (id : nat) (s : lspan) (j : nat) : bool :=
+  match parent_of es j, span_of_ent ps j with
+  | Some p, Some sp => (p =? id)%nat && within s sp
+  | _, _ => false
+  end.
+(* the first member (in the order of the AST: parameters before return members) that contains the location, and so on inwards *)
+Fixpoint descend (fuel : nat) (es : list ent) (ps : list lplace) (id : nat) (s : lspan) : nat :=
+  match fuel with
+  | O => id
+  | S f => match find (is_child_at es ps id s) (seq 0 (length es)) with
+           | Some j => descend f es ps j s
+           | None => id
+           end
+  end.
+Definition concerned (es : list ent) (ps : list lplace) (scope : nat) (s : lspan) : nat :=
+  let start :=
+    match nth_error ps scope, parent_of es scope with
+    | Some pl, Some p => if lp_param pl && negb (within s (lp_span pl)) then p else scope    (* the other one of that name may be meant *)
+    | _, _ => scope
+    end in
+  descend (S (length es)) es ps start s.
+(* a diagnostic with its location: the level is that of the diagnostic scoped to the element concerned *)
+Definition locate (c : ctx) (ps : list lplace) (d : diag) (s : option lspan) : diag :=
+  match d_scope d, s with
+  | Some sc, Some sp => {| d_lint := d_lint d; d_file := d_file d; d_scope := Some (concerned (c_ents c) ps sc sp) |}
+  | _, _ => d
+  end.
+(* a lint whose scope names no entity: the types within a type alias are scoped to the alias's module; the alias is the one of the
+   lint's file whose underlying type contains the lint *)
+Definition alias_at (ps : list lplace) (f : nat) (s : lspan) (j : nat) : bool :=
+  match nth_error ps j with
+  | Some pl => (lp_file pl =? f)%nat && match lp_under pl with Some u => within s u | None => false end
+  | None => false
+  end.
+Definition locate_unscoped (c : ctx) (ps : list lplace) (d : diag) (s : option lspan) : diag :=
+  match d_file d, s with
+  | Some f, Some sp =>
+    match find (alias_at ps f sp) (seq 0 (length ps)) with
+    | Some j => {| d_lint := d_lint d; d_file := d_file d; d_scope := Some (descend (S (length (c_ents c))) (c_ents c) ps j sp) |}
+    | None => d
+    end
+  | _, _ => d
+  end.
